@@ -56,7 +56,7 @@ def volatile_attrs(ctx):
 
 def run_cache_rule(ctx, ck, only=None, rule='R-CACHE.owner-only'):
     """R-CACHE over all memo sites (or those whose key is in `only`)"""
-    sites = find_memo_sites(ctx.model)
+    sites = find_memo_sites(ctx.model, ctx)
     n = 0
     seen = {}
     for s in sites:
@@ -87,6 +87,13 @@ def is_registration_idiom(site):
     if site.kind != 'attr-none' or site.guard is None:
         return False
     v = site.value
+    # `if o.tag is None: counter += 1; o.tag = counter`: handing out the next number of a running
+    # counter to an object that has none (numbering, decided by C17), not a cached computation
+    if isinstance(v, ast.Name) and any(isinstance(st, ast.AugAssign) and isinstance(st.target, ast.Name) and
+                                        st.target.id == v.id and isinstance(st.op, ast.Add) and
+                                        isinstance(st.value, ast.Constant) and st.value.value == 1
+                                        for st in site.guard.body):
+        return True
     if not (isinstance(v, ast.Call) and isinstance(v.func, ast.Name) and v.func.id == 'len' and len(v.args) == 1):
         return False
     lst = norm(v.args[0])
